@@ -55,6 +55,18 @@ def _templates():
 
         return lax.scan(f, c0, xs)
 
+    def mk_scan(rev, hx, L):
+        # the scan variants of the specification: reverse, and the counted scan without scanned inputs
+        if hx:
+            def t_scan_v(c0, xs, tf):
+                return lax.scan(lambda c, x: (tf[c, x], jnp.stack([c, x])), c0, xs, reverse=rev)
+        else:
+            def t_scan_v(c0, xs, tf):
+                del xs
+                return lax.scan(lambda c, _: (tf[c, 0], jnp.stack([c, jnp.int32(0)])), c0, None, length=L, reverse=rev)
+
+        return t_scan_v
+
     def t_scan_in_while(c0, xs, tf, reps):
         # scan nested in a while loop that repeats it `reps` times (Loop inside Loop)
         def body(st):
@@ -70,7 +82,7 @@ def _templates():
     def t_cond_bool(p, s, t0, t1):
         return lax.cond(p, lambda v: t1[v], lambda v: t0[v], s)
 
-    return dict(t_while=t_while, t_while_nested_in_cond=t_while_nested_in_cond, t_vwhile=t_vwhile, mk_fori=mk_fori, t_scan=t_scan, t_scan_in_while=t_scan_in_while, t_switch=t_switch, t_cond_bool=t_cond_bool)
+    return dict(t_while=t_while, t_while_nested_in_cond=t_while_nested_in_cond, t_vwhile=t_vwhile, mk_fori=mk_fori, t_scan=t_scan, mk_scan=mk_scan, t_scan_in_while=t_scan_in_while, t_switch=t_switch, t_cond_bool=t_cond_bool)
 
 
 def _export(fn, specs):
@@ -119,6 +131,7 @@ def replay(records: list[dict[str, Any]], jax_crosscheck_every: int = 17) -> dic
     out: dict[str, Any] = {"n": 0, "mismatch": [], "export_failed": [], "spec_vs_jax": [], "per_kind": {}, "templates": 0}
     runners: dict[Any, Any] = {}
     timeouts: dict[Any, int] = {}
+    may_reject: set[Any] = set()
 
     def runner(key, fn, specs):
         if key not in runners:
@@ -127,7 +140,10 @@ def replay(records: list[dict[str, Any]], jax_crosscheck_every: int = 17) -> dic
                 out["templates"] += 1
             except Exception as ex:  # noqa: BLE001
                 runners[key] = None
-                out["export_failed"].append({"template": str(key), "error": f"{type(ex).__name__}: {str(ex)[:200]}"})
+                if key in may_reject:
+                    out.setdefault("rejected_at_export", []).append({"template": str(key), "error": f"{type(ex).__name__}: {str(ex)[:120]}"})
+                else:
+                    out["export_failed"].append({"template": str(key), "error": f"{type(ex).__name__}: {str(ex)[:200]}"})
         return runners[key]
 
     for ri, r in enumerate(records):
@@ -156,10 +172,19 @@ def replay(records: list[dict[str, Any]], jax_crosscheck_every: int = 17) -> dic
             xs = np.array(r["xs"], i32).reshape(L)
             ys = np.array(r["ys"], i32).reshape(L, 2)
             args = (np.array(r["c0"], i32), xs, np.array(r["tf"], i32))
-            cases.append((("scan", L, nS), T["t_scan"], [((), i32), ((L,), i32), ((nS, 2), i32)], args, [r["s"], ys]))
-            if L > 0:
+            rev, hx = bool(r.get("rev", False)), bool(r.get("hx", True))
+            if rev or not hx:
+                # variant programs: the specification's JAX machine gives the expected result; where the
+                # specification has no wiring (reject) the export may raise instead
+                key = ("scan_variant", rev, hx, L, nS)
+                if r.get("reject"):
+                    may_reject.add(key)
+                cases.append((key, T["mk_scan"](rev, hx, L), [((), i32), ((L,), i32), ((nS, 2), i32)], args, [r["s"], ys]))
+            else:
+                cases.append((("scan", L, nS), T["t_scan"], [((), i32), ((L,), i32), ((nS, 2), i32)], args, [r["s"], ys]))
+            if L > 0 and not rev and hx:
                 cases.append((("scan_sym", nS), T["t_scan"], [((), i32), (("L",), i32), ((nS, 2), i32)], args, [r["s"], ys]))
-            if ri % 11 == 0 and L > 0:
+            if ri % 11 == 0 and L > 0 and not rev and hx:
                 # nested: repeat the scan `reps` times inside a while loop; expectation by iterating the spec's scan
                 for reps in (0, 2):
                     c = r["c0"]
